@@ -48,3 +48,11 @@ claim("C16", "exploration",
       "Six repository names that are prefixes/nestings of each other; every digest and tag is probed in every repository after writes; mounts with ordinary and hostile sources; 18 hostile path templates; internal/store is built with its os import replaced by a shim so that every path of every filesystem call is checked against the repositories the request addresses; a sentinel tree next to the root is compared byte for byte.",
       "The shim sees only calls made through package os in internal/store (the only package that touches the filesystem); addressed repositories are computed from the cleaned URL as any router would.",
       "isolation probes + filesystem path monitor (os shim through build overlay) + sentinel snapshot", "DESIGN.md section 5 C16")
+claim("C09", "fault_enumeration",
+      "Sequential histories on a directory store whose filesystem calls go through an os shim; a crash image (copy of the root) is taken before every mutating call, in the middle of every write and after every request; every image is reopened by a fresh server and must be observationally equal to the quiescent disk before or after the request in flight (content one-sided), with blob files hashing to their names, index.json parseable, no 5xx, every tag pulling completely, also after a collection pass on the image. Exhaustive over the crash points of the explored histories.",
+      "Process-crash model only (completed syscalls durable; os.File has no user-space buffer), as the property's own quantifier says; the shim sees calls made through package os in internal/store; the torn two-step update of requests with a subject is recorded finding K2; equality of a quiescent disk with the API state is C10's business.",
+      "crash-image enumeration through an os shim (build overlay) + recovery oracle", "DESIGN.md section 5 C09, Appendix C")
+claim("C10", "exploration",
+      "The collection history generator drives a directory store and, in lockstep with identical choices, a memory twin: OCI layout validation and index.json-tags == tags/list == model after every operation, snapshots of both stores compared after every operation, collection + Close + reopen equivalence at random points, reopening as memory-over-directory at the end, and nested repositories a, a/b, a/b/c created and emptied in every order with collections between upload and manifest.",
+      "Before a restart comparison an explicit collection is run, so the collection inside Close is a second pass; differences that are exactly K1/K5/K6 are recognised by signature and end the lockstep for that history.",
+      "layout-invariant monitor + restart / store differential", "DESIGN.md section 5 C10")
